@@ -156,6 +156,20 @@ def clientCase (hdr : String) (lines : List String) : List String :=
           | some (a, b) => s!"impl=[{a.1} {a.2.take 120}] model=[{b.1} {b.2.take 120}]"
           | none => s!"impl has {snI.length} datagrams, model {snM.length}"
         [s!"DIFF client datagrams case={caseId} {detail}"]
+      -- the end of the group after Disconnect() / Close(): the receive loop looks at its context right after
+      -- the packet it has handled — if the returning call has cancelled the group by then it ends at once,
+      -- otherwise at its next read deadline (two goroutines runnable at the same instant): the `done` line of the
+      -- implementation may come at the instant such a call returned instead of at the model's later instant
+      let isDone := fun (x : Nat × String) => x.2.startsWith "done "
+      let retTimes : List Nat := iNorm.filterMap fun (t, s) => if s.startsWith "ret " then some t else none
+      let hasEndCall := evs.any fun (_, e) => match e with | .api _ .close => true | .api _ .disconnect => true | _ => false
+      let dI := iNorm.filter isDone
+      let dM := mStr.filter isDone
+      let doneEarly := hasEndCall && (match dI, dM with
+        | [(ti, si)], [(tm, sm)] => si == sm && ti < tm && retTimes.contains ti
+        | _, _ => false)
+      let iNorm := if doneEarly then iNorm.filter (!isDone ·) else iNorm
+      let mStr := if doneEarly then mStr.filter (!isDone ·) else mStr
       -- 2. everything, as multisets per instant
       let gi := (groupByTime iNorm).map fun (t, ss) => (t, sortStrs ss)
       let gm := (groupByTime mStr).map fun (t, ss) => (t, sortStrs ss)
